@@ -66,26 +66,44 @@ Theorem C17_to_snapshot : forall c,
   /\ s_cap (snapshot c) = c_cap c /\ s_shards (snapshot c) = length (c_shs c).
 Proof. intros c. repeat split. Qed.
 
-(* restore (snapshot c), serialization modelled as the identity on the snapshot
-   value: same key -> (value, cost) mapping as the live part of c *)
-Theorem C17_snapshot_mapping : forall c now' ttl' tti', wf c ->
-  Permutation (map kvc (concat (maps (restore (snapshot c) now' ttl' tti'))))
+(* build_from_snapshot of the snapshot's entries in ANY order [ps] (a serialized
+   snapshot is a bag of entries; serde/bincode are trusted to return that bag;
+   the D1 harness sorts it by key): same key -> (value, cost) mapping as the live
+   part of c *)
+Theorem C17_snapshot_mapping : forall c ps now' ttl' tti', wf c ->
+  Permutation ps (s_entries (snapshot c)) ->
+  Permutation (map kvc (concat (maps (restore (mkSnap ps (c_cap c) (length (c_shs c))) now' ttl' tti'))))
               (map kvc (filter (live (c_tti c) (c_now c)) (concat (maps c)))).
 Proof. exact restore_mapping. Qed.
 
-Theorem C17_snapshot_wf : forall c now' ttl' tti', wf c -> wf (restore (snapshot c) now' ttl' tti').
+(* the two orders that occur: the snapshot as produced, and as the harness reorders it *)
+Theorem C17_snapshot_mapping_plain : forall c now' ttl' tti', wf c ->
+  Permutation (map kvc (concat (maps (restore (snapshot c) now' ttl' tti'))))
+              (map kvc (filter (live (c_tti c) (c_now c)) (concat (maps c)))).
+Proof. exact (fun c now' ttl' tti' H => restore_mapping c _ now' ttl' tti' H (Permutation_refl _)). Qed.
+
+Theorem C17_snapshot_mapping_reordered : forall c now' ttl' tti', wf c ->
+  Permutation (map kvc (concat (maps (restore (reorder (snapshot c)) now' ttl' tti'))))
+              (map kvc (filter (live (c_tti c) (c_now c)) (concat (maps c)))).
+Proof. exact (fun c now' ttl' tti' H => restore_mapping c _ now' ttl' tti' H (sort_by_key_perm _)). Qed.
+
+Theorem C17_snapshot_wf : forall c ps now' ttl' tti', wf c ->
+  Permutation ps (s_entries (snapshot c)) ->
+  wf (restore (mkSnap ps (c_cap c) (length (c_shs c))) now' ttl' tti').
 Proof. exact restore_wf. Qed.
 
-Theorem C17_snapshot_all_live : forall c now' ttl' tti', wf c -> tti' <> Some 0 ->
-  forall e', In e' (concat (maps (restore (snapshot c) now' ttl' tti'))) -> live tti' now' e' = true.
+Theorem C17_snapshot_all_live : forall c ps now' ttl' tti', wf c ->
+  Permutation ps (s_entries (snapshot c)) -> tti' <> Some 0 ->
+  forall e', In e' (concat (maps (restore (mkSnap ps (c_cap c) (length (c_shs c))) now' ttl' tti'))) ->
+  live tti' now' e' = true.
 Proof. exact restore_all_live. Qed.
 
 (* current_cost of the restored cache is the sum of the restored costs *)
-Theorem C17_snapshot_cost : forall c now' ttl' tti', wf c ->
-  c_cost (restore (snapshot c) now' ttl' tti')
-    = sumN (map ecost (concat (maps (restore (snapshot c) now' ttl' tti'))))
-  /\ c_cost (restore (snapshot c) now' ttl' tti')
-    = sumN (map ecost (filter (live (c_tti c) (c_now c)) (concat (maps c)))).
+Theorem C17_snapshot_cost : forall c ps now' ttl' tti', wf c ->
+  Permutation ps (s_entries (snapshot c)) ->
+  let c' := restore (mkSnap ps (c_cap c) (length (c_shs c))) now' ttl' tti' in
+  c_cost c' = sumN (map ecost (concat (maps c')))
+  /\ c_cost c' = sumN (map ecost (filter (live (c_tti c) (c_now c)) (concat (maps c)))).
 Proof. exact restore_cost. Qed.
 
 (* the TTL lifetime left is carried over exactly (hence "no longer") *)
@@ -105,13 +123,18 @@ Theorem C17_snapshot_lifetime_except_tti : forall c now' tti' e, c_tti c = None 
   In e (filter (live (c_tti c) (c_now c)) (concat (maps c))) ->
   ole (life_left tti' now' (entry_of_p now' tti' (pentry_of (c_now c) e)))
       (life_left (c_tti c) (c_now c) e).
-Proof. exact (fun c now' tti' => restore_life_no_tti c now' None tti'). Qed.
+Proof. exact (fun c now' tti' => restore_life_no_tti c [] now' None tti'). Qed.
 
-(* nothing is admitted to a policy by the restore (DESIGN F-23) *)
-Theorem C17_restore_admits_nothing : forall c now' ttl' tti',
-  Forall (fun sh => sh_pol sh = [] /\ sh_pend sh = []) (c_shs (restore (snapshot c) now' ttl' tti'))
-  /\ c_cap (restore (snapshot c) now' ttl' tti') = c_cap c.
-Proof. exact restore_fresh_policy. Qed.
+(* since the repair of F-23: the restore admits every restored entry to its
+   shard's policy — every resident key is tracked with its cost (hence a possible
+   eviction victim), nothing else is, no write is pending, and the cost of
+   residents unknown to a policy is 0 *)
+Theorem C17_restore_admits_all : forall c ps now' ttl' tti' cp, wf c -> c_cap c = Some cp ->
+  Permutation ps (s_entries (snapshot c)) ->
+  sumN (map ecost (filter (live (c_tti c) (c_now c)) (concat (maps c)))) < W64 ->
+  let c' := restore (mkSnap ps (c_cap c) (length (c_shs c))) now' ttl' tti' in
+  Inv c' /\ Forall all_tracked (c_shs c') /\ U (c_shs c') = 0.
+Proof. exact Inv_restore. Qed.
 
 (* ======================================================================== *)
 (** 4. "from then on honours its capacity like any other cache"              *)
@@ -134,24 +157,11 @@ Theorem C17_fresh_capacity : forall n cp ttl tti now os, (0 < n)%nat ->
   c_cost cf <= cp /\ c_cost cf = total_res (c_shs cf).
 Proof. exact fresh_capacity. Qed.
 
-(* the full clause for restored caches: REFUTED (finding F-23) — a snapshot
-   taken while the cache is over capacity restores into a cache that no amount
-   of maintenance brings back under capacity *)
-Theorem C17_restored_capacity_refuted_F23 : ~ restored_capacity_full.
-Proof. exact restored_capacity_refuted. Qed.
-
-(* what holds: accounting stays exact, the cost never exceeds max(capacity,
-   restored cost), and the clause holds whenever the snapshot was within capacity *)
-Theorem C17_restored_capacity_except_F23 : forall c now' tti' cp os,
-  wf c -> c_cap c = Some cp ->
-  sumN (map ecost (filter (live (c_tti c) (c_now c)) (concat (maps c)))) < W64 ->
-  let c' := restore (snapshot c) now' None tti' in
-  ok_run c' (os ++ [OMaint]) ->
-  let cf := fst (run c' (os ++ [OMaint])) in
-  c_cost cf = total_res (c_shs cf)
-  /\ (c_cost cf <= cp \/ c_cost cf <= c_cost c')
-  /\ (c_cost c' <= cp -> c_cost cf <= cp).
-Proof. exact restored_capacity. Qed.
+(* the FULL clause for caches built from a snapshot (code repaired for F-23):
+   from any consistent state c — over capacity or not — and any ordering of its
+   snapshot, exactly the guarantee of a fresh cache *)
+Theorem C17_restored_capacity : restored_capacity_full.
+Proof. exact restored_capacity_holds. Qed.
 
 (* ======================================================================== *)
 (** non-vacuity                                                              *)
@@ -194,6 +204,15 @@ Example C17_example_restore :
   /\ c_cost (restore (snapshot ex_cache) 1016 None None) = 3
   /\ concat (maps (restore (snapshot ex_cache) 1016 None None)) = [mkE 2 12 2 1047 0; mkE 3 13 1 0 0].
 Proof. repeat split; vm_compute; reflexivity. Qed.
+
+(* the former witness of F-23 (snapshot taken at cost 12 > capacity 10): the
+   restored cache, in either entry order, ends run_maintenance at 8 like the original *)
+Example C17_example_former_F23 :
+  c_cost w_cap = 12
+  /\ c_cost (fst (run w_cap [OMaint])) = 8
+  /\ c_cost (fst (run (restore (snapshot w_cap) 1000 None None) [OMaint])) = 8
+  /\ c_cost (fst (run (restore (reorder (snapshot w_cap)) 1000 None None) [OMaint])) = 8.
+Proof. exact former_F23_witness. Qed.
 
 (* a fresh cache of capacity 10: the hypotheses of C17_fresh_capacity hold for a
    history with an overwrite and an eviction *)
